@@ -20,13 +20,15 @@ Record WF (origin : name) (z : zone) : Prop := mkWF {
   wf_cname1  : forall n recs, zget z (n, tCNAME) = Some recs -> (length recs <= 1)%nat
 }.
 
-(* Known-finding classes (decidable, on the message alone) under which the invariants are lost *)
+(* Known-finding class (decidable, on the message alone) under which the invariants are lost.
+   (The former class C12-apex-delete-all is repaired: fix 9a1aca9; [apex_wipe] now only names
+   the form of RR that the positive theorem C12_apex_delete_all_keeps_soa_ns speaks about.) *)
 Definition apex_wipe (origin : name) (u : rr) : bool :=
   (rclass u =? cANY) && (rtype u =? tANY) && name_eqb (rname u) origin.
 Definition soa_not_apex (origin : name) (u : rr) : bool :=
   (rclass u =? cIN) && (rtype u =? tSOA) && negb (name_eqb (rname u) origin).
 Definition Known_inv (origin : name) (m : msg) : bool :=
-  existsb (fun u => apex_wipe origin u || soa_not_apex origin u) (m_upd m).
+  existsb (soa_not_apex origin) (m_upd m).
 
 (* the serials a message can bring into the zone *)
 Definition soa_serials (us : list rr) : list N :=
@@ -88,18 +90,10 @@ Definition has_exempt_at (z : zone) (n : name) : bool :=
   existsb (fun e => name_eqb (fst (fst e)) n && exempt (snd (fst e))) z.
 
 Definition Known_rr (origin : name) (z : zone) (u : rr) : bool :=
-  apex_wipe origin u                                                     (* C12-apex-delete-all *)
-  || soa_not_apex origin u                                               (* C12-soa-not-apex *)
-  || ((rclass u =? cANY) && (rtype u =? tANY) && (has_rrset z (rname u, tNS) || has_rrset z (rname u, tSOA)))
-                                                                         (* C12-delete-name-keeps-ns *)
+  soa_not_apex origin u                                                  (* C12-soa-not-apex *)
   || has_empty_at z (rname u)                                            (* C12-empty-rrset-kept *)
   || ((rclass u =? cIN) && existsb (fun r => rdata_eqb (fst r) (rdat u) && negb (snd r =? rttl u))
                                    (recs_at z (rname u, rtype u)))       (* C12-ttl-not-replaced *)
-  || ((rclass u =? cIN) && (rtype u =? tSOA) &&
-      match recs_at z (rname u, tSOA), rdat u with
-      | (DSoa zs _, _) :: _, DSoa ns _ => negb (Bool.eqb (soa_newer ns zs) (serial_lt zs ns))
-      | _, _ => false
-      end)                                                               (* C12-serial-arith *)
   (* outside the universe of the correspondence check: DNSSEC / ANAME types *)
   || exempt (rtype u) || (rtype u =? tANAME) || has_exempt_at z (rname u).
 
